@@ -216,7 +216,7 @@ func main() {
 									return nil
 								})
 								// snapshot with nothing that wins
-								dm := snapshot.NewDBI()
+								dm := snapshot.NewDBISize(512)
 								dm.SetName("d")
 								skip := false
 								for _, pair := range []struct {
